@@ -194,12 +194,12 @@ EXPLANATION = (
     "R18.1 (A6): the table mapping default-object members to (key, value) pairs — Shorthand / KeyValue / Getter with body / Method are static "
     "only through the literal-key unwrapper, every other member and every spread yields None (dynamic, mergeDefaults); inside the unwrapper a "
     "computed key is static only when it is a literal. R18.2: the condition that decides between emitting a default as written and wrapping it "
-    "in a factory must involve the prop's inferred types (known finding: it does not). R18.3: the quoted/unquoted key match has both "
+    "in a factory must involve the prop's inferred types (repaired by 5dc72f5). R18.3: the quoted/unquoted key match has both "
     "directions; mergeDefaults(props, defaults) argument order and import name."
 )
 ASSUMPTIONS = ["Vue's resolvePropValue semantics (function defaults of non-Function props are factories)", "evaluating a factory is not modelled"]
 TRUSTED = ["rustc nightly typed HIR"]
 LEVEL = "other"
-LEVEL_TEXT = "Table and template checks on the typed HIR of the props extractor / builder; one genuine defect (factory around a function default of a Function-typed prop) is a recorded known finding."
+LEVEL_TEXT = "Table and template checks on the typed HIR of the props extractor / builder; the former defect (factory around a function default of a Function-typed prop) was repaired (5dc72f5)."
 LEVEL_NOTE = "Trusted: rustc HIR. Not decided: runtime value of factories."
 TECHNIQUE = "table extraction (A6) + guard inspection + construction-template order on typed HIR"
